@@ -268,4 +268,105 @@ theorem items_of_sorted (ops : List (Op VH)) (hsort : ops.Pairwise KeyLt) :
 
 end Items
 
+/-! ### grouping the items = the groups of the runs -/
+section Groups
+variable (view : KVL VH) (prover : Key → PathProof Node VH)
+
+theorem groupByTerminal_foldl : ∀ (items : List (Item VH)) (acc : List (WPath Node VH)),
+    groupByTerminal prover items acc = (items.foldl (fun a it => stepAcc prover it a) acc).reverse
+  | [], acc => by simp [groupByTerminal]
+  | it :: rest, acc => by rw [groupByTerminal_cons, groupByTerminal_foldl rest]; rfl
+
+/-- the reads of a slice with the view's values -/
+def readsSpec (slice : List (Op VH)) : List (Key × Option VH) :=
+  slice.filterMap fun o => if o.2.isRead then some (o.1, kvGet view o.1) else none
+
+/-- the group of the run `r` with the view's values for its reads -/
+def groupSpec (ops : List (Op VH)) (r : Nat × Nat) : Option (WPath Node VH) :=
+  ops[r.1]?.map fun o =>
+    { path := tpOf prover o.1, proof := prover o.1,
+      reads := readsSpec view (sliceOf ops r), writes := subtrieOps (sliceOf ops r) }
+
+abbrev stepItems (items : List (Item VH)) (acc : List (WPath Node VH)) : List (WPath Node VH) :=
+  items.foldl (fun a it => stepAcc prover it a) acc
+
+/-- an operation under the path of the newest group joins it -/
+theorem stepOp_join (o : Op VH) (w : WPath Node VH) (ws : List (WPath Node VH)) (hp : w.path = tpOf prover o.1) :
+    stepItems prover (expandOp view o) (w :: ws) =
+      { w with reads := w.reads ++ readsSpec view [o], writes := w.writes ++ subtrieOps [o] } :: ws := by
+  obtain ⟨k, rw⟩ := o
+  have hp' : w.path = tpOf prover k := hp
+  cases rw with
+  | read => simp [stepItems, expandOp, RW.isRead, RW.written, stepAcc, hp', addOp, readsSpec, subtrieOps]
+  | write v => simp [stepItems, expandOp, RW.isRead, RW.written, stepAcc, hp', addOp, readsSpec, subtrieOps]
+  | readWrite v =>
+    simp [stepItems, expandOp, RW.isRead, RW.written, stepAcc, hp', addOp, readsSpec, subtrieOps]
+
+/-- an operation under another path than the newest group's opens a new group -/
+theorem stepOp_fresh (o : Op VH) (acc : List (WPath Node VH))
+    (hp : ∀ w ws, acc = w :: ws → w.path ≠ tpOf prover o.1) :
+    stepItems prover (expandOp view o) acc =
+      { path := tpOf prover o.1, proof := prover o.1, reads := readsSpec view [o], writes := subtrieOps [o] } :: acc := by
+  obtain ⟨k, rw⟩ := o
+  cases acc with
+  | nil =>
+    cases rw with
+    | read => simp [stepItems, expandOp, RW.isRead, RW.written, stepAcc, addOp, readsSpec, subtrieOps]
+    | write v => simp [stepItems, expandOp, RW.isRead, RW.written, stepAcc, addOp, readsSpec, subtrieOps]
+    | readWrite v => simp [stepItems, expandOp, RW.isRead, RW.written, stepAcc, addOp, readsSpec, subtrieOps]
+  | cons w ws =>
+    have hb : ¬ w.path = tpOf prover k := hp w ws rfl
+    cases rw with
+    | read => simp [stepItems, expandOp, RW.isRead, RW.written, stepAcc, hb, addOp, readsSpec, subtrieOps]
+    | write v => simp [stepItems, expandOp, RW.isRead, RW.written, stepAcc, hb, addOp, readsSpec, subtrieOps]
+    | readWrite v => simp [stepItems, expandOp, RW.isRead, RW.written, stepAcc, hb, addOp, readsSpec, subtrieOps]
+
+theorem readsSpec_append (a b : List (Op VH)) : readsSpec view (a ++ b) = readsSpec view a ++ readsSpec view b := by
+  simp [readsSpec]
+theorem subtrieOps_append (a b : List (Op VH)) : subtrieOps (a ++ b) = subtrieOps a ++ subtrieOps b := by
+  simp [subtrieOps]
+
+/-- all operations of a slice under the path of the newest group join it -/
+theorem stepSlice_join : ∀ (slice : List (Op VH)) (w : WPath Node VH) (ws : List (WPath Node VH)),
+    (∀ o ∈ slice, tpOf prover o.1 = w.path) →
+    stepItems prover (expand view slice) (w :: ws) =
+      { w with reads := w.reads ++ readsSpec view slice, writes := w.writes ++ subtrieOps slice } :: ws
+  | [], w, ws, _ => by simp [stepItems, expand, readsSpec, subtrieOps]
+  | o :: rest, w, ws, h => by
+    have ho := h o List.mem_cons_self
+    have : expand view (o :: rest) = expandOp view o ++ expand view rest := by simp [expand]
+    rw [this, stepItems, List.foldl_append]
+    have e := stepOp_join view prover o w ws ho.symm
+    simp only [stepItems] at e
+    rw [e]
+    have ih := stepSlice_join rest { w with reads := w.reads ++ readsSpec view [o], writes := w.writes ++ subtrieOps [o] } ws
+      (fun x hx => h x (List.mem_cons_of_mem _ hx))
+    simp only [stepItems] at ih
+    rw [ih]
+    simp only [List.append_assoc]
+    rw [← readsSpec_append, ← subtrieOps_append]
+    rfl
+
+/-- a whole run opens one new group -/
+theorem stepRun_fresh (o : Op VH) (more : List (Op VH)) (acc : List (WPath Node VH))
+    (hsame : ∀ x ∈ more, tpOf prover x.1 = tpOf prover o.1)
+    (hp : ∀ w ws, acc = w :: ws → w.path ≠ tpOf prover o.1) :
+    stepItems prover (expand view (o :: more)) acc =
+      { path := tpOf prover o.1, proof := prover o.1, reads := readsSpec view (o :: more),
+        writes := subtrieOps (o :: more) } :: acc := by
+  have : expand view (o :: more) = expandOp view o ++ expand view more := by simp [expand]
+  rw [this, stepItems, List.foldl_append]
+  have e := stepOp_fresh view prover o acc hp
+  simp only [stepItems] at e
+  rw [e]
+  have ih := stepSlice_join view prover more
+    { path := tpOf prover o.1, proof := prover o.1, reads := readsSpec view [o], writes := subtrieOps [o] } acc
+    (fun x hx => hsame x hx)
+  simp only [stepItems] at ih
+  rw [ih]
+  rw [← readsSpec_append, ← subtrieOps_append]
+  rfl
+
+end Groups
+
 end Nomt.Split
